@@ -18,6 +18,8 @@ EXPECT = {
     "seed-C06": ["C06"], "seed-C07": ["C07"], "seed-C08": ["C08"], "seed-C09": ["C09"], "seed-C10": ["C10"], "seed-C11": ["C11"],
     "seed-C12": ["C12", "C04"], "seed-C13": ["C13"], "seed-C14": ["C14"], "seed-C15": ["C15"], "seed-C16": ["C16", "C08"], "seed-C17": ["C17"],
     "seed-C18": ["C18"], "seed-C19": ["C19"],
+    "seed-C01-b": ["C01"], "seed-C02-b": ["C02"], "seed-C03-b": ["C03"], "seed-C09-b": ["C09"], "seed-C12-b": ["C12", "C04"], "seed-C13-b": ["C13"],
+    "seed-C14-b": ["C14"], "seed-C16-b": ["C16", "C03"],
 }
 
 
